@@ -19,28 +19,11 @@ from . import common as cm
 from . import manager as om
 
 
-class Diverged(Exception):
-    """a library call did not return within the watchdog budget (e.g. a non-terminating gap-fill loop)"""
-
-
-def _alarm(signum, frame):
-    raise Diverged("no result within the watchdog budget")
+from ..impl import Diverged, guarded as _guarded  # noqa: E402  (one nest-safe watchdog for the whole harness)
 
 
 def guarded(fn, seconds=5.0):
-    """run fn() under a SIGALRM watchdog (main thread of the worker process)"""
-    import signal
-
-    try:
-        old = signal.signal(signal.SIGALRM, _alarm)
-    except ValueError:  # not in the main thread: run unguarded
-        return fn()
-    signal.setitimer(signal.ITIMER_REAL, seconds)
-    try:
-        return fn()
-    finally:
-        signal.setitimer(signal.ITIMER_REAL, 0)
-        signal.signal(signal.SIGALRM, old)
+    return _guarded(fn, seconds=seconds)
 
 
 def guard_check(check):
